@@ -215,6 +215,8 @@ func cliRun(prog *load.Program, env cliEnv, choices *interp.Choices) (*cliPath, 
 			}
 		}
 	}
+	// the default flag set, for code that hands it around (setup funcs taking a *flag.FlagSet)
+	m.ExtVars["flag.CommandLine"] = &interp.Opaque{Kind: "*flag.FlagSet", ID: "flag.CommandLine", GoType: "*flag.FlagSet", Attrs: map[string]interp.Value{}}
 	m.Ext["flag.NewFlagSet"] = func(mm *interp.Machine, pos token.Pos, recv interp.Value, a []interp.Value) (interp.Value, error) {
 		return &interp.Opaque{Kind: "*flag.FlagSet", ID: "flagset", GoType: "*flag.FlagSet", Attrs: map[string]interp.Value{}}, nil
 	}
